@@ -1,8 +1,9 @@
 //! Formatting traits driven the ways `format!("{}", x)` does not: format-spec flags and writers that fail.
 //!
-//! * flags: `{:#}`, width / fill / alignment, `+`, `0`.  The properties fix the *text* of a value; what a
-//!   formatter does with padding is its own business, so the monitor only demands that the canonical text appears
-//!   contiguously in the output (after an optional `0x` / `0b` for `#`), whatever surrounds it.
+//! * flags: `{:#}`, width / fill / alignment, `+`, `0`.  The properties fix the *text* of a value; whether a
+//!   formatter honours padding is its own business, so the monitor demands that the output is the canonical text
+//!   (after `(` an optional `0x` / `0b` for `#`, in front an optional `+` for `+`) with nothing around it but the
+//!   fill character of the spec (blank by default, `0` for the zero flag).
 //! * fault injection: a `fmt::Write` sink that accepts `cap` bytes and then returns `Err`.  A formatter must not
 //!   panic, must have written a prefix of the canonical text, may only report `Ok` when everything was written,
 //!   and — the sink's failure being the caller's business — must print the next value as if nothing had happened.
@@ -34,28 +35,64 @@ impl Write for Limited {
     }
 }
 
-fn squeeze(s: &str) -> String {
-    s.chars().filter(|c| !c.is_whitespace()).collect()
+/// The characters a formatter may legitimately put around the text for the spec `label`: the fill character of
+/// the spec (a blank when none is given), `0` for the zero flag, and a `+` sign in front for the `+` flag.
+fn allowed_padding(label: &str) -> (Vec<char>, bool) {
+    let inner: Vec<char> = label.trim_start_matches("{:").trim_end_matches('}').chars().collect();
+    let mut fills = vec![' '];
+    let mut i = 0;
+    if inner.len() >= 2 && matches!(inner[1], '<' | '>' | '^') {
+        fills.push(inner[0]);
+        i = 2;
+    } else if !inner.is_empty() && matches!(inner[0], '<' | '>' | '^') {
+        i = 1;
+    }
+    let mut plus = false;
+    while i < inner.len() && matches!(inner[i], '+' | '#') {
+        if inner[i] == '+' {
+            plus = true;
+        }
+        i += 1;
+    }
+    if i < inner.len() && inner[i] == '0' {
+        fills.push('0');
+    }
+    (fills, plus)
 }
 
-/// does `out` carry the canonical text (`prefix_ok`: a radix prefix may follow the opening parenthesis)?
-fn carries(out: &str, canonical: &str, radix_prefix: Option<&str>) -> bool {
-    if out.contains(canonical) {
-        return true;
-    }
+/// does `out` consist of the canonical text (after `(`, a radix prefix is tolerated for `#`) with nothing but
+/// padding of the spec around it?
+fn carries(out: &str, canonical: &str, radix_prefix: Option<&str>, label: &str) -> bool {
+    let (fills, plus) = allowed_padding(label);
+    let mut candidates: Vec<String> = vec![canonical.to_string()];
     if let Some(p) = radix_prefix {
         if let Some(i) = canonical.find('(') {
-            let alt = format!("{}{}{}", &canonical[..=i], p, &canonical[i + 1..]);
-            if out.contains(&alt) {
+            candidates.push(format!("{}{}{}", &canonical[..=i], p, &canonical[i + 1..]));
+        }
+        candidates.push(format!("{}{}", p, canonical));
+    }
+    if plus {
+        let more: Vec<String> = candidates.iter().map(|c| format!("+{}", c)).collect();
+        candidates.extend(more);
+    }
+    for c in &candidates {
+        let mut from = 0;
+        while let Some(k) = out[from..].find(c.as_str()) {
+            let at = from + k;
+            let before = &out[..at];
+            let after = &out[at + c.len()..];
+            if before.chars().all(|ch| fills.contains(&ch)) && after.chars().all(|ch| fills.contains(&ch)) {
                 return true;
             }
+            from = at + std::cmp::max(1, c.chars().next().map(|ch| ch.len_utf8()).unwrap_or(1));
+            if from >= out.len() {
+                break;
+            }
         }
-        let alt2 = format!("{}{}", p, canonical);
-        if out.contains(&alt2) {
+        if c.is_empty() && out.chars().all(|ch| fills.contains(&ch)) {
             return true;
         }
     }
-    let _ = squeeze;
     false
 }
 
@@ -83,7 +120,7 @@ spec_probe!(bin_specs, Binary,
 pub fn judge_specs(outs: &[(&'static str, String)], canonical: &str, radix_prefix: Option<&str>) -> Result<usize, (String, String)> {
     for (label, out) in outs {
         let p = if label.contains('#') { radix_prefix } else { None };
-        if !carries(out, canonical, p) {
+        if !carries(out, canonical, p, label) {
             return Err((label.to_string(), out.clone()));
         }
     }
